@@ -559,7 +559,7 @@ SLOTS = {0: "qasm3 gate", 1: "qasm3 circuit", 2: "qasm2 gate", 3: "qasm2 circuit
 
 
 def run(tier, seed):
-    chk = C.Check(PID, tier, seed, level="partial")
+    chk = C.Check(PID, tier, seed, level="proof")
     rng = random.Random(seed)
     ok, log = C.coq_build()
     obl = C.prop_obligations(PID) if ok else dict(theorems=[], axioms={}, ok=False, log=log)
